@@ -24,6 +24,7 @@ func init() {
 	register(&core.Rule{ID: "R-URL-SHAPE", Props: []string{"C05", "C09", "C07"}, Doc: "NormalizeURL: every return that can carry a nil error has passed the scheme test against {http:, https:}, the host tests against localhost and 127.0.0.1, the dotted-host test and SetHash(\"\") — directly or through a module helper whose nil result implies them", Run: ruleURLShape})
 	register(&core.Rule{ID: "R-HTTP-EGRESS", Props: []string{"C05"}, Doc: "calls that send HTTP requests from module code are confined to the archiver fetch closure (client.Do on the request prepared by preprocess) and the reviewed start-up/queue exemptions; anything else reachable from the pipeline is reported", Run: ruleHTTPEgress})
 	register(&core.Rule{ID: "R-NO-AUTO-REDIRECT", Props: []string{"C05", "C06"}, Doc: "no code stores HTTPClientSettings.FollowRedirects: the warc client returns 3xx responses instead of following them, so redirect targets are only fetched as gated child items", Run: ruleNoAutoRedirect})
+	register(&core.Rule{ID: "R-EXCLUSION-FILES", Props: []string{"C05"}, Doc: "GenerateCrawlConfig: the lines read from each --exclusion-file are compiled and appended to config.ExclusionRegexes before the next file is read (nothing is overwritten between iterations); compileRegexes compiles every line", Run: ruleExclusionFiles})
 	register(&core.Rule{ID: "R-DEFAULT-EXCLUDES", Props: []string{"C05"}, Doc: "GenerateCrawlConfig stores into ExcludeHosts, on every path to return nil, a value built from an append containing archive.org and archive-it.org; nothing else writes ExcludeHosts afterwards", Run: ruleDefaultExcludes})
 }
 
@@ -840,6 +841,35 @@ func ruleURLShape(r *core.Reporter) {
 			bad = "a scheme-less reference with a parent can be parsed without the parent as base (scheme-relative //host/path would get a default scheme instead of the page's)"
 		}
 	}
+	// the base handed to the resolver is the parent's serialised URL (or its origin): rebuilding it from decoded
+	// components (url.URL.Path, .Fragment, .RawQuery-less) is lossy (%2F, %3F, %23 in the page's own path)
+	for _, wb := range withBase {
+		c := wb.(*ssa.Call)
+		var lossy string
+		var walk func(v ssa.Value, d int)
+		walk = func(v ssa.Value, d int) {
+			if v == nil || d > 8 {
+				return
+			}
+			switch x := v.(type) {
+			case *ssa.BinOp:
+				walk(x.X, d+1)
+				walk(x.Y, d+1)
+			case *ssa.Phi:
+				for _, e := range x.Edges {
+					walk(e, d+1)
+				}
+			case *ssa.UnOp:
+				if tn, f, ok := ir.FieldOf(x.X); ok && tn == "net/url.URL" && (f == "Path" || f == "Fragment" || f == "Opaque") {
+					lossy = f
+				}
+			}
+		}
+		walk(c.Call.Args[1], 0)
+		if lossy != "" {
+			bad = "the base URL for resolving relative references is rebuilt from the parent's decoded ." + lossy + " instead of its serialised form: a page whose own path contains escaped delimiters (%2F, %3F, %23) resolves its relative requisites to the wrong URL"
+		}
+	}
 	if bad == "" {
 		r.Held("NormalizeURL/resolve-base", len(withBase), "references without a scheme are resolved against the parent whenever there is one")
 	} else {
@@ -1073,4 +1103,83 @@ func ruleDefaultExcludes(r *core.Reporter) {
 	} else {
 		r.Undecided("ExcludeHosts/writers", "", "no store to ExcludeHosts found")
 	}
+}
+
+func ruleExclusionFiles(r *core.Reporter) {
+	p := r.P
+	fn := p.Func(rel(pkgConfig), "GenerateCrawlConfig")
+	if fn == nil {
+		r.Undecided("config.GenerateCrawlConfig", "", "anchor not found")
+		return
+	}
+	r.Analysed(fn)
+	var reads []*ssa.Call
+	allInstrs(fn, func(in ssa.Instruction) {
+		if c, ok := in.(*ssa.Call); ok && ir.IsCallTo(c, pkgConfig+".readLocalExclusionFile", pkgConfig+".readRemoteExclusionFile") {
+			reads = append(reads, c)
+		}
+	})
+	if !r.Floor("exclusion file readers", len(reads), 2) {
+		return
+	}
+	for _, rd := range reads {
+		key := "GenerateCrawlConfig/" + shortName(ir.FullName(ir.CalleeOf(rd.Common())))
+		l, okl := loopAround(fn, rd)
+		if !okl {
+			r.Violated(key, p.InstrPos(rd), "exclusion files are no longer read in a loop over config.ExclusionFile")
+			continue
+		}
+		var lines ssa.Value
+		for _, rr := range ir.Referrers(rd) {
+			if e, ok := rr.(*ssa.Extract); ok && e.Index == 0 {
+				lines = e
+			}
+		}
+		// the lines of this file reach an append to config.ExclusionRegexes before the next iteration
+		accumulate := func(in ssa.Instruction) bool {
+			st, ok := in.(*ssa.Store)
+			if !ok {
+				return false
+			}
+			if tn, f, okf := ir.FieldOf(st.Addr); !okf || tn != pkgConfig+".Config" || f != "ExclusionRegexes" {
+				return false
+			}
+			ap, isAp := st.Val.(*ssa.Call)
+			if !isAp || ir.CallName(ap.Common()) != "builtin.append" {
+				return false
+			}
+			// first arg is the old list; variadic arg derives from this iteration's lines
+			if !isConfigFieldOrGlobal(ap.Call.Args[0], "ExclusionRegexes") {
+				return false
+			}
+			_, flows := ir.FlowsTo(lines, func(x ssa.Instruction, _ ssa.Value) bool { return x == ssa.Instruction(ap) }, 200)
+			return flows
+		}
+		res := ir.Reach([]ir.Pt{ir.After(rd)}, ir.Opts{Stop: func(in ssa.Instruction) bool { return in == ssa.Instruction(l.If) || accumulate(in) }})
+		if res.Stopped[l.If] {
+			r.Violated(key, p.InstrPos(rd), "the regexes read from one --exclusion-file can be replaced by the next file's before they are added to config.ExclusionRegexes: only the last file is enforced")
+		} else {
+			r.Held(key, 1, "each file's lines are compiled and appended before the next file is read")
+		}
+	}
+	cr := p.Func(rel(pkgConfig), "compileRegexes")
+	if cr != nil {
+		r.Analysed(cr)
+		var mc *ssa.Call
+		allInstrs(cr, func(in ssa.Instruction) {
+			if c, ok := in.(*ssa.Call); ok && ir.IsCallTo(c, "regexp.MustCompile", "regexp.Compile") {
+				mc = c
+			}
+		})
+		if mc != nil && loopCoversAll(cr, mc) {
+			r.Held("compileRegexes", 1, "every line is compiled")
+		} else {
+			r.Violated("compileRegexes", fnPos(p, cr), "not every exclusion line is compiled")
+		}
+	}
+}
+
+func isConfigFieldOrGlobal(v ssa.Value, field string) bool {
+	pth := ir.Path(v)
+	return strings.HasSuffix(pth, "."+field)
 }
